@@ -197,6 +197,20 @@ def run(ctx):
             R.ob(bool(raw) and bool(sig) and not other, "DERIVE", c_.where(), "DERIVE|signed-tx-hash",
                  "the hash of a signed transaction is `%s`; the protocol pins keccak256(inscribed bytes) after the activation height and the signing hash "
                  "before it" % show(th)[:120], sample={"rule": "DERIVE", "value": "signed tx hash", "row": "keccak256(raw_tx) | signing hash, chosen by use_rlp_hash"})
+    # which of the two derivations applies is decided by height: the inscribed-bytes hash from its activation height on
+    import boundary
+    ur = F.fn_opt("engine::hardforks::use_rlp_hash_for_tx_hash")
+    R.floor("rlp_hash_selector", 1 if ur is not None else 0, 1)
+    if ur is not None:
+        ur = F.inlined(ur)
+        hp = (ur.j.get("param_names") or ["block_number"])[0]
+        for net, want_at, want_before in (("Bitcoin", {True}, {False}), ("Signet", {True}, None), ("Regtest", {True}, {True})):
+            got_at, cmps = boundary.outcomes(F, ur, hp, net, "at")
+            got_bf, _c = boundary.outcomes(F, ur, hp, net, "before")
+            R.ob(got_at == want_at and (want_before is None or got_bf == want_before), "DERIVE", ur.where(), "DERIVE|signed-tx-hash|boundary:%s" % net,
+                 "on %s the inscribed-bytes hash is selected %s at its activation height (must be %s) and %s at the height below (must be %s)" % (
+                     net, sorted(got_at), sorted(want_at), sorted(got_bf), sorted(want_before) if want_before else "-"),
+                 sample={"rule": "DERIVE (abstract execution)", "fn": "use_rlp_hash_for_tx_hash", "network": net, "at": sorted(got_at), "before": sorted(got_bf)})
     # ---- 4. CONST
     man = construle.manifest(F, ctx.repo)
     pinned = ctx.table(PINNED)
